@@ -156,7 +156,12 @@ SndKinds == <<
   "P18-return-other-type",          \* a ret / the declared return type contradicts the function's value
   "P19-tuple-index-out-of-range",
   "P20-condition-non-bool",
-  "P21-missing-return"              \* a value-returning function can fall off its end
+  "P21-missing-return",             \* a value-returning function can fall off its end
+  "P22-similar-user-type",          \* a blob literal / enum value / tuple replaced by one of a DIFFERENT but SIMILAR type
+  "P23-operand-via-unannotated-parameter", \* an ill-typed operand reaches an operator / field access / index through an un-annotated
+                                    \* parameter (or directly), coming from a literal, variable, alias chain, field, call result, tuple element
+  "P24-name-outside-its-region"     \* self in a non-method field of a blob literal, a case binding in a sibling arm, a loop-body local in
+                                    \* the loop condition, a parameter / inner local used outside its function
 >>
 
 SndOtherLits(k) ==
@@ -219,6 +224,12 @@ SndCaseAlts(n) ==
                    [n EXCEPT !.arms[i].body = <<Print(Fld(V(b), "n"))>> \o @]),
               SndA("P16-case-binding-misused", "binding-added-to-str",
                    [n EXCEPT !.arms[i].body = <<Print(Bin("+", V(b), St("s")))>> \o @])>>
+            \o SndFlat([j \in 1..na |->
+                  IF j = i THEN <<>>
+                  ELSE <<SndA("P24-name-outside-its-region", "case-binding-in-sibling-arm",
+                              [n EXCEPT !.arms[j].body = <<Print(Bin("+", V(b), I(1)))>> \o @])>>])
+            \o (IF n.hasels THEN <<SndA("P24-name-outside-its-region", "case-binding-in-else",
+                                        [n EXCEPT !.els = <<Print(Bin("+", V(b), I(1)))>> \o @])>> ELSE <<>>)
        ELSE <<SndA("P16-case-binding-misused", "binder-on-payloadless-variant",
                    [n EXCEPT !.arms[i] = CArmB(n.arms[i].v, FB3, <<Print(Bin("+", V(FB3), I(1)))>> \o n.arms[i].body)])>>])
 
@@ -244,6 +255,143 @@ SndFnAlts(n) ==
              SndA("P21-missing-return", "tail-dropped", [n EXCEPT !.body = pre]),
              SndA("P21-missing-return", "tail-stored-not-yielded", [n EXCEPT !.body = pre \o <<DefC(FB2, TNone, e)>>])>>
       ELSE <<>>)
+
+
+---------------------------------------------------------------------------
+(* P22: families of similar user types.  The declarations are part of EVERY program of the universe
+   (SndSimilarDecls follows the Prelude), so the perturbation applies wherever a literal of a family occurs. *)
+SndIntFields(names) == [i \in 1..Len(names) |-> FD(names[i], TInt)]
+SndSimilarDecls == <<
+  BlobD("P3", SndIntFields(<<"x", "y", "z">>)),
+  BlobD("P2", SndIntFields(<<"x", "y">>)),                      \* sorted field names are a prefix of P3's
+  BlobD("P4", SndIntFields(<<"x", "y", "z", "w">>)),            \* superset
+  BlobD("Q3", SndIntFields(<<"x", "y", "z">>)),                 \* same fields, other declaration
+  BlobD("R3", <<FD("x", TInt), FD("y", TInt), FD("z", TStr)>>), \* same names, other field type
+  BlobD("S2", SndIntFields(<<"y", "z">>)),                      \* subset that is not a prefix
+  BlobD("Bs", <<FD("add", TFn(<<TInt>>, TInt)), FD("get", TFn(<<>>, TInt))>>),                                   \* prefix of B (add, get, n)
+  BlobD("Bx", <<FD("n", TInt), FD("get", TFn(<<>>, TInt)), FD("add", TFn(<<TInt>>, TInt)), FD("z", TInt)>>),     \* superset of B
+  EnumD("E3", <<VD1("A", TInt), VD0("B"), VD0("C")>>),
+  EnumD("E2", <<VD1("A", TInt), VD0("B")>>),
+  EnumD("E4", <<VD1("A", TInt), VD0("B"), VD0("C"), VD0("D")>>),
+  EnumD("F3", <<VD1("A", TStr), VD0("B"), VD0("C")>>),
+  EnumD("E1", <<VD1("X", TInt)>>),                              \* E is X int, Y
+  EnumD("EZ", <<VD1("X", TInt), VD0("Y"), VD0("Z")>>),
+  EnumD("ES", <<VD1("X", TStr), VD0("Y")>>),
+  BlobD("WS", <<FD("w", TStr)>>), BlobD("WB", <<FD("w", TBool)>>), BlobD("WI", <<FD("w", TInt)>>)
+>>
+
+SndP3Lit(name, fs, a) == BlobL(name, [i \in 1..Len(fs) |-> FI(fs[i], I(a + i))])
+SndGetFn == Fn(<<>>, TInt, <<Ex(I(1))>>)
+SndAddFn == Fn(<<P(911, TInt)>>, TInt, <<Ex(V(911))>>)
+
+SndSimilarBlobs(name) ==       \* <<[v, n]>>: literals of the types similar to blob `name`
+  CASE name = "P3" -> <<[v |-> "blob-prefix-subset", n |-> SndP3Lit("P2", <<"x", "y">>, 3)],
+                        [v |-> "blob-superset", n |-> SndP3Lit("P4", <<"x", "y", "z", "w">>, 3)],
+                        [v |-> "blob-same-fields-other-name", n |-> SndP3Lit("Q3", <<"x", "y", "z">>, 3)],
+                        [v |-> "blob-same-names-other-field-type", n |-> BlobL("R3", <<FI("x", I(4)), FI("y", I(5)), FI("z", St("s"))>>)],
+                        [v |-> "blob-subset", n |-> SndP3Lit("S2", <<"y", "z">>, 3)]>>
+    [] name = "B" -> <<[v |-> "blob-prefix-subset", n |-> BlobL("Bs", <<FI("get", SndGetFn), FI("add", SndAddFn)>>)],
+                       [v |-> "blob-superset", n |-> BlobL("Bx", <<FI("n", I(1)), FI("get", SndGetFn), FI("add", SndAddFn), FI("z", I(2))>>)]>>
+    [] OTHER -> <<>>
+
+SndSimilarEnums(name) ==       \* <<[v, enum, str]>>: str = the payloads of the similar enum are strings
+  CASE name = "E3" -> <<[v |-> "enum-subset", enum |-> "E2", str |-> FALSE], [v |-> "enum-superset", enum |-> "E4", str |-> FALSE],
+                        [v |-> "enum-same-variants-other-payload", enum |-> "F3", str |-> TRUE]>>
+    [] name = "E" -> <<[v |-> "enum-subset", enum |-> "E1", str |-> FALSE], [v |-> "enum-superset", enum |-> "EZ", str |-> FALSE],
+                       [v |-> "enum-same-variants-other-payload", enum |-> "ES", str |-> TRUE]>>
+    [] OTHER -> <<>>
+
+SndSimilarAlts(n) ==
+     (IF n.k = "blob"
+      THEN LET sim == SndSimilarBlobs(n.name) IN [i \in 1..Len(sim) |-> SndA("P22-similar-user-type", sim[i].v, sim[i].n)]
+      ELSE <<>>)
+  \o (IF n.k = "variant"
+      THEN LET sim == SndSimilarEnums(n.enum) IN
+           [i \in 1..Len(sim) |-> SndA("P22-similar-user-type", sim[i].v,
+                                       IF n.has /\ sim[i].str THEN Var1(sim[i].enum, n.v, St("p")) ELSE [n EXCEPT !.enum = sim[i].enum])]
+      ELSE <<>>)
+  \o (IF n.k = "tuple"
+      THEN (IF Len(n.es) >= 2 THEN <<SndA("P22-similar-user-type", "tuple-prefix", [n EXCEPT !.es = SndButLast(n.es)])>> ELSE <<>>)
+           \o <<SndA("P22-similar-user-type", "tuple-extended", [n EXCEPT !.es = Append(n.es, I(0))])>>
+      ELSE <<>>)
+
+(* P23: a value no operand of the operator may have, by provenance, reaching the operator through an un-annotated
+   parameter (the operator's constraint on the parameter is deferred until the call) or directly *)
+FB5 == 905
+FB6 == 906
+FB7 == 907
+FB8 == 908
+FB9 == 909
+SndWrongFor(op) == IF op \in {"+", "<", "<=", ">", ">="} THEN Bo(TRUE) ELSE IF op \in {"and", "or", "not"} THEN I(1) ELSE St("abc")
+SndBoxOf(w) == IF w.k = "bool" THEN "WB" ELSE IF w.k = "str" THEN "WS" ELSE "WI"
+SndProvenances(w) ==           \* <<[v, pre, arg]>>: statements that set the value up, and the expression that yields it
+  <<[v |-> "literal", pre |-> <<>>, arg |-> w],
+    [v |-> "variable", pre |-> <<DefM(FB6, TNone, w)>>, arg |-> V(FB6)],
+    [v |-> "alias-chain", pre |-> <<DefM(FB6, TNone, w), DefC(FB7, TNone, V(FB6)), DefC(FB8, TNone, V(FB7))>>, arg |-> V(FB8)],
+    [v |-> "field", pre |-> <<DefC(FB6, TNone, BlobL(SndBoxOf(w), <<FI("w", w)>>))>>, arg |-> Fld(V(FB6), "w")],
+    [v |-> "call-result", pre |-> <<DefC(FB6, TNone, Fn(<<>>, TNone, <<Ex(w)>>))>>, arg |-> Call(V(FB6), <<>>)],
+    [v |-> "tuple-element", pre |-> <<DefC(FB6, TNone, Tup(<<w, I(0)>>))>>, arg |-> Idx(V(FB6), 0)]>>
+\* (fn -> pre ; f :: fn a -> body(a) end ; f(arg) end)()
+SndViaParam(body, pv) ==
+  Call(Fn(<<>>, TNone, pv.pre \o <<DefC(FB9, TNone, Fn(<<P(FB5, TNone)>>, TNone, <<Ex(body)>>)), Ex(Call(V(FB9), <<pv.arg>>))>>), <<>>)
+SndDirectly(body, pv) == IF Len(pv.pre) = 0 THEN body ELSE Call(Fn(<<>>, TNone, pv.pre \o <<Ex(body)>>), <<>>)
+SndPick(pvs, names) == LET idx == SndSelectIdx(pvs, LAMBDA q : q.v \in names) IN [i \in 1..Len(idx) |-> pvs[idx[i]]]
+
+SndOperandAlts(n) ==
+  LET K == "P23-operand-via-unannotated-parameter" IN
+     (IF n.k = "bin" /\ n.op \in {"+", "-", "*", "/", "<", "<=", ">", ">="}
+      THEN LET pvs == SndProvenances(SndWrongFor(n.op))
+               some == SndPick(pvs, {"variable", "field", "call-result"}) IN
+           [i \in 1..Len(pvs) |-> SndA(K, "left-of-" \o n.op \o ":via-parameter:" \o pvs[i].v, SndViaParam([n EXCEPT !.l = V(FB5)], pvs[i]))]
+        \o <<SndA(K, "right-of-" \o n.op \o ":via-parameter:variable", SndViaParam([n EXCEPT !.r = V(FB5)], pvs[2]))>>
+        \o [i \in 1..Len(some) |-> SndA(K, "left-of-" \o n.op \o ":directly:" \o some[i].v, SndDirectly([n EXCEPT !.l = some[i].arg], some[i]))]
+      ELSE <<>>)
+  \o (IF n.k = "un"
+      THEN LET pvs == SndProvenances(SndWrongFor(IF n.op = "-" THEN "-" ELSE "not")) IN
+           [i \in 1..Len(pvs) |-> SndA(K, "operand-of-" \o (IF n.op = "-" THEN "neg" ELSE "not") \o ":via-parameter:" \o pvs[i].v,
+                                       SndViaParam([n EXCEPT !.a = V(FB5)], pvs[i]))]
+      ELSE <<>>)
+  \o (IF n.k = "fld" /\ n.e.k # "self" /\ n.f # "w"
+      THEN LET pvs == SndPick(SndProvenances(BlobL("WS", <<FI("w", St("abc"))>>)), {"literal", "variable", "alias-chain", "call-result"}) IN
+           [i \in 1..Len(pvs) |-> SndA(K, "object-of-field-read:via-parameter:" \o pvs[i].v, SndViaParam([n EXCEPT !.e = V(FB5)], pvs[i]))]
+      ELSE <<>>)
+  \o (IF n.k = "idx"
+      THEN LET pvs == SndPick(SndProvenances(St("abc")), {"literal", "variable"}) IN
+           [i \in 1..Len(pvs) |-> SndA(K, "object-of-index:via-parameter:" \o pvs[i].v, SndViaParam([n EXCEPT !.e = V(FB5)], pvs[i]))]
+      ELSE <<>>)
+
+(* P24 on a blob literal: `self` is bound in the function-valued fields only *)
+FB10 == 910
+SndSelfAlts(n) ==
+  LET K == "P24-name-outside-its-region"
+      nf == Len(n.fields)
+      plain == SndSelectIdx(n.fields, LAMBDA f : f.e.k # "fn")
+      meths == SndSelectIdx(n.fields, LAMBDA f : f.e.k = "fn")
+      Moved(i, p, e) == LET rest == SubSeq(n.fields, 1, i - 1) \o SubSeq(n.fields, i + 1, nf) IN
+                        SndInsert(rest, p, FI(n.fields[i].f, e))
+      Rel(i, p) == LET rest == SubSeq(n.fields, 1, i - 1) \o SubSeq(n.fields, i + 1, nf)
+                       nb == Cardinality({j \in 1..(p - 1) : rest[j].e.k = "fn"})
+                       na == Cardinality({j \in p..Len(rest) : rest[j].e.k = "fn"}) IN
+                   IF nb = 0 THEN (IF na = 0 THEN "no-methods" ELSE "before-methods")
+                   ELSE IF na = 0 THEN "after-methods" ELSE "between-methods" IN
+  SndFlat([q \in 1..Len(plain) |->
+     LET i == plain[q]
+         f == n.fields[i].f IN
+     SndFlat([p \in 1..nf |->
+        <<SndA(K, "self-in-plain-field:" \o Rel(i, p), [n EXCEPT !.fields = Moved(i, p, Fld(Self, f))]),
+          SndA(K, "self-in-closure-called-in-plain-field:" \o Rel(i, p),
+               [n EXCEPT !.fields = Moved(i, p, Call(Fn(<<>>, TNone, <<Ex(Fld(Self, f))>>), <<>>))])>>])
+     \o [m \in 1..Len(meths) |->
+           SndA(K, "self-in-nested-literal-inside-method",
+                [n EXCEPT !.fields[meths[m]].e.body =
+                    <<DefC(FB10, TNone, BlobL("WI", <<FI("w", Fld(Self, f))>>)), Print(Fld(V(FB10), "w"))>> \o @])]])
+
+\* binders that live inside the functions occurring in n: parameters, and definitions in function bodies
+RECURSIVE SndInnerBinders(_, _)
+SndInnerBinders(n, inside) ==
+     (IF n.k = "fn" THEN [i \in 1..Len(n.params) |-> [v |-> "parameter", b |-> n.params[i].b]] ELSE <<>>)
+  \o (IF inside /\ n.k = "def" THEN <<[v |-> "inner-local", b |-> n.b]>> ELSE <<>>)
+  \o SndFlat([j \in 1..Len(SndKids(n)) |-> SndInnerBinders(SndKids(n)[j], inside \/ n.k = "fn")])
 
 \* alternatives for an expression node (never applied to an assignment target or to a std name)
 SndExprAlts(n) ==
@@ -284,6 +432,9 @@ SndExprAlts(n) ==
   \o (IF n.k = "list" THEN <<SndA("P12-list-two-element-types", "literal-element", [n EXCEPT !.es = Append(n.es, St("s"))])>> ELSE <<>>)
   \o (IF n.k = "idx" THEN <<SndA("P19-tuple-index-out-of-range", "index+2", [n EXCEPT !.i = n.i + 2])>> ELSE <<>>)
   \o <<SndA("P10-void-as-value", n.k, Call(Std("print"), <<n>>))>>
+  \o SndSimilarAlts(n)
+  \o SndOperandAlts(n)
+  \o (IF n.k = "blob" THEN SndSelfAlts(n) ELSE <<>>)
 
 SndWrapDecl(s) ==
   <<SndA("P4-decl-moved-into-branch", "if-branch", Ex(If1(Bo(TRUE), <<s>>))),
@@ -312,6 +463,11 @@ SndStmtAlts(n, top) ==
       ELSE <<>>)
   \o (IF n.k = "ret" /\ n.has THEN <<SndA("P18-return-other-type", "ret-value", [n EXCEPT !.e = St("r")])>> ELSE <<>>)
   \o (IF n.k = "loop" THEN <<SndA("P20-condition-non-bool", "loop", [n EXCEPT !.c = I(1)])>> ELSE <<>>)
+  \o (IF n.k = "loop"
+      THEN LET ds == SndSelectIdx(n.body, LAMBDA t : t.k = "def") IN
+           [q \in 1..Len(ds) |-> SndA("P24-name-outside-its-region", "loop-body-local-in-condition",
+                                      [n EXCEPT !.c = Bin("and", Bin("==", V(n.body[ds[q]].b), V(n.body[ds[q]].b)), n.c)])]
+      ELSE <<>>)
 
 \* binders of the case arms inside n that are not under a nested function
 RECURSIVE SndCaseBinders(_)
@@ -340,6 +496,10 @@ SndSeqAlts(n, root) ==
        \o (LET bs == SndCaseBinders(n.ss[i]) IN
            [q \in 1..Len(bs) |-> SndA("P16-case-binding-misused", "binding-used-after-case",
                                       SndSeqN(SndInsert(n.ss, i + 1, Print(Bin("+", V(bs[q]), I(1))))))])
+       \o (LET bs == SndInnerBinders(n.ss[i], FALSE)
+                at == IF i < Len(n.ss) THEN i + 1 ELSE i IN         \* (a trailing expression stays the tail)
+           [q \in 1..Len(bs) |-> SndA("P24-name-outside-its-region", bs[q].v \o "-used-outside-its-function",
+                                      SndSeqN(SndInsert(n.ss, at, Print(V(bs[q].b)))))])
        \o (IF SndIsPush(n.ss[i])
            THEN <<SndA("P12-list-two-element-types", "push",
                        SndSeqN(SndInsert(n.ss, i + 1, Ex(Call(Std("list.push"), <<n.ss[i].e.args[1], St("s")>>)))))>>
@@ -371,7 +531,8 @@ SndApFn == DefN(GAp, "const", TNone,
                 Fn(<<P(31, TFn(<<TInt>>, TInt)), P(32, TInt)>>, TInt, <<Ex(Bin("+", Call(V(31), <<V(32)>>), I(1)))>>), "ap")
 
 SndDedicatedNames == <<"prelude", "scopes", "hof", "void", "lists", "blobs", "captured", "cases", "returns",
-                       "glob-read", "glob-compound", "glob-field", "glob-alias", "glob-method">>
+                       "glob-read", "glob-compound", "glob-field", "glob-alias", "glob-method",
+                       "usertypes-blob", "usertypes-enum-tuple", "methods">>
 
 SndDedicated(name) ==
   CASE name = "prelude" ->       \* uses every definition of the Prelude; the one base that is perturbed INSIDE the Prelude too
@@ -471,6 +632,50 @@ SndDedicated(name) ==
            DefN(GOb, "const", TNone, BlobL("M", <<FI("n", I(3)), FI("m", Fn(<<>>, TInt, <<Asg("+=", V(GB2), Fld(Self, "n")), Ex(Fld(Self, "n"))>>))>>), "ob"),
            DefN(GA, "const", TInt, Call(Fld(V(GOb), "m"), <<>>), "ga"),
            StartDef(<<Print(V(GA)), Print(Bin("+", V(GB2), I(1)))>>)>>
+    \* values of user types at every kind of position: initialiser, assignment to an existing variable (un-annotated and
+    \* annotated, from a literal and from a variable), argument, return value, field initialiser, list element, case scrutinee
+    [] name = "usertypes-blob" ->
+         <<BlobD("HP", <<FD("inner", TName("P3")), FD("k", TInt)>>),
+           DefN(GF2, "const", TNone, Fn(<<P(92, TName("P3"))>>, TInt, <<Ex(Bin("+", Fld(V(92), "z"), I(1)))>>), "usep"),
+           DefN(GA, "const", TNone, Fn(<<P(93, TInt)>>, TName("P3"),
+                                       <<Ex(BlobL("P3", <<FI("x", V(93)), FI("y", V(93)), FI("z", V(93))>>))>>), "mkp3"),
+           StartDef(<<DefM(80, TNone, SndP3Lit("P3", <<"x", "y", "z">>, 0)), Print(Bin("+", Fld(V(80), "z"), I(1))),
+                      Asg("=", V(80), SndP3Lit("P3", <<"x", "y", "z">>, 3)), Print(Bin("+", Fld(V(80), "z"), I(1))),
+                      DefM(81, TNone, SndP3Lit("P3", <<"x", "y", "z">>, 6)), Asg("=", V(80), V(81)),
+                      Print(Bin("+", Fld(V(80), "z"), Fld(V(80), "x"))),
+                      DefM(85, TName("P3"), SndP3Lit("P3", <<"x", "y", "z">>, 1)), Asg("=", V(85), SndP3Lit("P3", <<"x", "y", "z">>, 2)),
+                      Print(Bin("+", Fld(V(85), "z"), I(1))),
+                      Print(Bin("+", Call(V(GF2), <<SndP3Lit("P3", <<"x", "y", "z">>, 0)>>), Call(V(GF2), <<V(80)>>))),
+                      DefC(82, TNone, Call(V(GA), <<I(2)>>)), Print(Bin("+", Fld(V(82), "z"), I(1))),
+                      DefC(83, TNone, BlobL("HP", <<FI("inner", SndP3Lit("P3", <<"x", "y", "z">>, 2)), FI("k", I(1))>>)),
+                      Print(Bin("+", Fld(Fld(V(83), "inner"), "z"), Fld(V(83), "k"))),
+                      DefC(84, TNone, Lst(<<SndP3Lit("P3", <<"x", "y", "z">>, 4), V(80)>>)),
+                      Ex(Call(Std("for_each"), <<V(84), Fn(<<P(94, TName("P3"))>>, TVoid, <<Print(Bin("+", Fld(V(94), "z"), I(1)))>>)>>))>>)>>
+    [] name = "usertypes-enum-tuple" ->
+         <<DefN(GF2, "const", TNone,
+                Fn(<<P(95, TName("E3"))>>, TInt,
+                   <<Ex(CaseT(V(95), <<CArmB("A", 96, <<Ex(V(96))>>), CArm("B", <<Ex(I(0))>>), CArm("C", <<Ex(I(1))>>)>>))>>), "usee"),
+           DefN(GA, "const", TNone, Fn(<<P(97, TInt)>>, TName("E3"), <<Ex(Var1("E3", "A", V(97)))>>), "mke3"),
+           DefN(GB2, "const", TNone, Fn(<<P(98, TTuple(<<TInt, TInt, TInt>>))>>, TInt, <<Ex(Bin("+", Idx(V(98), 2), I(1)))>>), "uset"),
+           StartDef(<<DefM(86, TNone, Var0("E3", "C")), Asg("=", V(86), Var1("E3", "A", I(5))),
+                      Print(CaseT(V(86), <<CArmB("A", 89, <<Ex(Bin("+", V(89), I(1)))>>), CArm("B", <<Ex(I(0))>>), CArm("C", <<Ex(I(1))>>)>>)),
+                      Print(CaseT(Var0("E3", "B"), <<CArmB("A", 90, <<Ex(V(90))>>), CArm("B", <<Ex(I(0))>>), CArm("C", <<Ex(I(1))>>)>>)),
+                      Print(Bin("+", Call(V(GF2), <<Var1("E3", "A", I(2))>>), Call(V(GF2), <<V(86)>>))),
+                      Print(Call(V(GF2), <<Call(V(GA), <<I(3)>>)>>)),
+                      DefC(87, TNone, Lst(<<Var0("E3", "C"), V(86)>>)),
+                      Ex(Call(Std("for_each"), <<V(87), Fn(<<P(91, TName("E3"))>>, TVoid, <<Print(Call(V(GF2), <<V(91)>>))>>)>>)),
+                      DefM(88, TNone, Tup(<<I(1), I(2), I(3)>>)), Asg("=", V(88), Tup(<<I(4), I(5), I(6)>>)),
+                      Print(Bin("+", Idx(V(88), 2), I(1))),
+                      Print(Bin("+", Call(V(GB2), <<Tup(<<I(7), I(8), I(9)>>)>>), Call(V(GB2), <<V(88)>>)))>>)>>
+    \* a blob literal with plain fields before, between and after its methods
+    [] name = "methods" ->
+         <<BlobD("C3", <<FD("step", TInt), FD("bump", TFn(<<TInt>>, TInt)), FD("first", TInt), FD("get", TFn(<<>>, TInt)), FD("last", TInt)>>),
+           StartDef(<<DefC(76, TNone, BlobL("C3", <<FI("step", I(2)),
+                                                   FI("bump", Fn(<<P(77, TInt)>>, TInt, <<Ex(Bin("+", V(77), Fld(Self, "step")))>>)),
+                                                   FI("first", I(3)),
+                                                   FI("get", Fn(<<>>, TInt, <<Ex(Bin("+", Fld(Self, "first"), Fld(Self, "last")))>>)),
+                                                   FI("last", I(4))>>)),
+                      Print(Bin("+", Bin("+", Call(Fld(V(76), "bump"), <<I(1)>>), Call(Fld(V(76), "get"), <<>>)), Fld(V(76), "first")))>>)>>
 
 ---------------------------------------------------------------------------
 (* Bases.  A base id is [o, pos, i, h, v]: template o (or "D:<name>"), hole pos filled with template i
@@ -492,7 +697,8 @@ SndBaseTail(bid) ==       \* the top-level nodes that follow the Prelude
 \* The tree whose nodes are the sites of a base: the base D:prelude is perturbed everywhere (Prelude included), the
 \* others outside the Prelude (the root is then the sequence of the nodes that follow it).
 SndTree(bid) == IF SndIsWhole(bid) THEN SndSeqN(Prelude \o SndBaseTail(bid)) ELSE SndSeqN(SndBaseTail(bid))
-SndProgram(bid, tree) == IF SndIsWhole(bid) THEN tree.ss ELSE Prelude \o tree.ss
+SndCommon == Prelude \o SndSimilarDecls          \* what every program that is not perturbed inside the Prelude starts with
+SndProgram(bid, tree) == IF SndIsWhole(bid) THEN SndSimilarDecls \o tree.ss ELSE SndCommon \o tree.ss
 
 SndPreludeSize == SndSizeKids(Prelude, 1)     \* pre-order indices 2 .. 1 + SndPreludeSize are Prelude nodes
 
